@@ -120,6 +120,20 @@ def explicit_argument_sets(n, M):
         for pm in itertools.permutations(range(1, n + 1)):
             for cp in itertools.permutations(range(M)):
                 yield 'valid', list(fl), list(pm), list(cp)
+    # EVERY sequence of the right length over a value alphabet one step wider
+    # than the legal one (this contains all non-injective sequences, also those
+    # whose repetitions cancel in a sum or product test)
+    if 1 <= n <= 4:
+        for b in itertools.product(range(0, n + 2), repeat=n):
+            if sorted(b) != ident_p:
+                yield 'variables', ident_f, list(b), ident_c
+        for b in itertools.product((-1, 0, 1, 2), repeat=n):
+            if not all(abs(x) == 1 for x in b):
+                yield 'flips', list(b), ident_p, ident_c
+    if 1 <= M <= 4:
+        for b in itertools.product(range(-1, M + 1), repeat=M):
+            if sorted(b) != ident_c:
+                yield 'clauses', ident_f, ident_p, list(b)
     bad_f = [ident_f + [1], ident_f[:-1] if n else [1], [0] * n if n else None,
              [2] + ident_f[1:] if n else None, [1, -1, 1, 1, -1]]
     bad_p = [ident_p + [n + 1], list(range(0, n)) if n else [0], [1] * n if n > 1 else None,
@@ -150,7 +164,24 @@ def check_explicit(case, R=None):
 
     M = len(clauses)
     only = case.get('only')       # replay: a single argument tuple
-    sets = [tuple(only)] if only else explicit_argument_sets(n, M)
+    if case.get('large'):
+        def perm(k, first):
+            base = list(range(first, first + k))
+            if case['large'] == 'reverse':
+                return base[::-1]
+            if case['large'] == 'rotate':
+                return base[1:] + base[:1]
+            return base
+        fl = [1 if i % 3 else -1 for i in range(n)]
+        sets = [('valid', fl, perm(n, 1), perm(M, 0)),
+                ('valid', [1] * n, list(range(1, n + 1)), perm(M, 0)),
+                ('valid', fl, perm(n, 1), list(range(M))),
+                ('variables', [1] * n, perm(n, 1)[:-1] + [perm(n, 1)[0]], list(range(M))),
+                ('clauses', [1] * n, list(range(1, n + 1)), perm(M, 0)[:-1] + [perm(M, 0)[0]])]
+        if only:
+            sets = [tuple(only)]
+    else:
+        sets = [tuple(only)] if only else explicit_argument_sets(n, M)
     for idx, (kind, fl, pm, cp) in enumerate(sets):
         for container in ((list, tuple) if idx % 7 == 0 or only else (list,)):
             F = mk(n, clauses)
@@ -402,6 +433,12 @@ def shards(tier, seed):
     for n, cls in ASYM + SYM:
         ex.append({'n': n, 'clauses': cls})
     ex.append({'n': 4, 'clauses': [[1, -4], [2, 3]]})
+    ex.append({'n': 4, 'clauses': [[1, -4], [2, 3], [-1, 2, -3, 4], [4]]})
+    # sizes beyond CPython's small-integer cache (256) and two-digit indices
+    for big in (12, 300):
+        cls = [[(i % big) + 1, -(((i * 7) % big) + 1)] for i in range(big)]
+        for nm in ('identity', 'reverse', 'rotate'):
+            ex.append({'n': big, 'clauses': cls, 'large': nm})
     for i, ch in enumerate(scope.stripe(ex, 40)):
         out.append(('e%03d' % i, 'run_explicit', ch))
     # random part
